@@ -1,6 +1,11 @@
 (* C02: every plan the real planner produced is validated by the extracted, proved-sound [plan_ok]
    (theorem C02_checker_sound).  There is no Gallina mirror of the planner: a rejected plan is a
-   property failure (translation validation), never a mere mismatch. *)
+   property failure (translation validation), never a mere mismatch.
+
+   Mode [run] (driver argument, stream c02run): the log of the Consume calls of the real Pipeline.Run
+   (one log per recording item) is judged against the commit graph alone by the extracted,
+   proved-sound [exec_ok] (theorem C02_exec_checker_sound).  A rejected log, a panic or an error of
+   Run is a property failure. *)
 open C02_model
 open Conv
 
@@ -27,7 +32,42 @@ let graph_of_case (c : sx) : nat list list =
 
 let add k n = Hashtbl.replace counters k (n + try Hashtbl.find counters k with Not_found -> 0)
 
-let () =
+(* (r commit last seen...) ; last = -1: the instance had consumed nothing *)
+let record_of_sx (s : sx) : consume_record =
+  match args s with
+  | c :: l :: seen ->
+      let c = int_of_sx c and l = int_of_sx l in
+      if c < 0 then failwith "record of a commit outside the analysed set";
+      { rc_commit = nat_of_int c; rc_seen = List.map (fun x -> nat_of_int (int_of_sx x)) seen;
+        rc_last = (if l >= 0 then Some (nat_of_int l) else None) }
+  | _ -> failwith "record"
+
+let show_log (l : sx) : string =
+  let s = string_of_sx l in if String.length s > 600 then String.sub s 0 600 ^ "..." else s
+
+let run_mode () =
+  iter_cases (fun id c ->
+    let g = graph_of_case c in
+    let obs = field "obs" c in
+    let status = atom (List.hd (args (field "run" obs))) in
+    count "runs";
+    (* roots of the analysed component = Consume calls on an instance that had consumed nothing *)
+    let roots = List.length (List.filter (fun r -> int_of_sx (List.nth (args r) 1) < 0) (args (field "log0" obs))) in
+    count (Printf.sprintf "runs_with_%s_fresh_starts" (if roots >= 5 then "5plus" else string_of_int roots));
+    if status <> "ok" then
+      propfail id ("Pipeline.Run did not complete on a commit graph: " ^ status)
+    else
+      List.iter (fun name ->
+        let l = field name obs in
+        count "logs_judged";
+        add "consume_records" (List.length (args l));
+        let foreign = List.exists (fun r -> int_of_sx (List.hd (args r)) < 0) (args l) in
+        if foreign then propfail id ("a commit outside the given commit set was consumed: " ^ name ^ "=" ^ show_log l)
+        else if exec_ok g (List.map record_of_sx (args l)) then count "logs_accepted"
+        else propfail id (Printf.sprintf "the Consume log of the real Pipeline.Run is rejected by exec_ok: %s=%s" name (show_log l)))
+        ["log0"; "log1"])
+
+let plan_mode () =
   iter_cases (fun id c ->
     let g = graph_of_case c in
     let obs = args (field "obs" c) in
@@ -46,3 +86,6 @@ let () =
            if plan_ok g plan then count "plans_accepted"
            else propfail id (Printf.sprintf "plan #%d of the real planner is rejected by plan_ok: %s" (i + 1) (string_of_sx p)))
            ps))
+
+let () =
+  if Array.length Sys.argv > 1 && Sys.argv.(1) = "run" then run_mode () else plan_mode ()
